@@ -233,6 +233,27 @@ pub fn supervise(prop: &Property, tier: Tier) -> i32 {
         }
     }
 
+    // Coverage-guided campaigns (thorough tier only).
+    let mut fuzz_info = Vec::new();
+    if tier == Tier::Thorough && inconclusive.is_none() {
+        for t in crate::fuzzing::TARGETS.iter().filter(|t| t.property == prop.id) {
+            match run_fuzz_campaign(prop, t, seed, &scratch) {
+                Ok((info, mut fails, report)) => {
+                    fuzz_info.push(info);
+                    failures.append(&mut fails);
+                    if let Some(r) = report {
+                        failures.extend(r.failures.iter().cloned());
+                        reports.push(r);
+                    }
+                }
+                Err(why) => {
+                    inconclusive = Some(format!("fuzz campaign {}: {why}", t.name));
+                    break;
+                }
+            }
+        }
+    }
+
     // Known findings: lines for every listed `known` entry of this property.
     let mut known_lines = Vec::new();
     let hit_keys: Vec<String> = reports.iter().flat_map(|r| r.known_hits.iter().cloned()).collect();
@@ -304,6 +325,7 @@ pub fn supervise(prop: &Property, tier: Tier) -> i32 {
         "inconclusive": inconclusive,
         "generator_health_failures": degenerate,
         "regression_inputs_replayed": regressions_replayed,
+        "fuzz_campaigns": fuzz_info,
     });
     if !reports.is_empty() {
         if let Err(e) = evidence::write(prop, tier, seed, &reports, extra, wall, n_viol, &known_lines) {
@@ -420,5 +442,176 @@ pub fn replay(path: &Path, quiet: bool) -> i32 {
             }
             1
         }
+    }
+}
+
+/// Runs one libFuzzer campaign (8 jobs, fixed number of runs, seeded) and replays the resulting corpus through
+/// the stable release binary. Returns (info for the evidence, failures from crash artifacts, corpus report).
+fn run_fuzz_campaign(
+    prop: &Property,
+    t: &crate::fuzzing::FuzzTarget,
+    seed: u64,
+    scratch: &Path,
+) -> Result<(serde_json::Value, Vec<Failure>, Option<WorkerReport>), String> {
+    let dir = scratch.join(format!("fuzz-{}", t.name));
+    let corpus = dir.join("corpus");
+    let arts = dir.join("artifacts");
+    std::fs::create_dir_all(&corpus).map_err(|e| e.to_string())?;
+    std::fs::create_dir_all(&arts).map_err(|e| e.to_string())?;
+    let fuzz_dir = harness_dir().join("../fuzz");
+    let seeds = fuzz_dir.join("seeds").join(t.name);
+    let mut n_seeds = 0;
+    if let Ok(rd) = std::fs::read_dir(&seeds) {
+        for e in rd.flatten() {
+            if std::fs::copy(e.path(), corpus.join(e.file_name())).is_ok() {
+                n_seeds += 1;
+            }
+        }
+    }
+    let jobs = 8;
+    let start = Instant::now();
+    let log = std::fs::File::create(dir.join("campaign.log")).map_err(|e| e.to_string())?;
+    let log2 = log.try_clone().map_err(|e| e.to_string())?;
+    let status = Command::new("cargo")
+        .current_dir(&dir)
+        .env("CARGO_NET_OFFLINE", "true")
+        .args(["+nightly", "fuzz", "run", "--fuzz-dir"])
+        .arg(&fuzz_dir)
+        .arg(t.name)
+        .arg(&corpus)
+        .arg("--")
+        .arg(format!("-runs={}", t.runs_per_job))
+        .arg(format!("-seed={}", (seed % 1_000_000) + 1))
+        .arg(format!("-max_len={}", t.max_len))
+        .arg("-len_control=0")
+        .arg(format!("-jobs={jobs}"))
+        .arg(format!("-workers={jobs}"))
+        .arg(format!("-artifact_prefix={}/", arts.display()))
+        .stdin(Stdio::null())
+        .stdout(log)
+        .stderr(log2)
+        .status()
+        .map_err(|e| format!("cannot start cargo fuzz: {e}"))?;
+    let mut fails = Vec::new();
+    let mut n_art = 0;
+    if let Ok(rd) = std::fs::read_dir(&arts) {
+        for e in rd.flatten() {
+            let name = e.file_name().to_string_lossy().to_string();
+            if !(name.starts_with("crash-") || name.starts_with("oom-") || name.starts_with("timeout-")) {
+                continue;
+            }
+            n_art += 1;
+            if name.starts_with("timeout-") {
+                continue; // a slow unit is not a violation
+            }
+            if let Ok(bytes) = std::fs::read(e.path()) {
+                if fails.len() < 3 {
+                    fails.push(Failure {
+                        property: prop.id.to_string(),
+                        subcheck: format!("fuzz.{}", t.name),
+                        profile: "checked".to_string(),
+                        case: serde_json::to_value(crate::fuzzing::FuzzBytes(bytes)).unwrap_or_default(),
+                        violation: Violation::new(
+                            format!("fuzz:{}", name.split('-').next().unwrap_or("crash")),
+                            format!("libFuzzer target {} stopped on this input ({name}); replay gives the oracle's message (unshrunk)", t.name),
+                        ),
+                        shrunk: false,
+                    });
+                }
+            }
+        }
+    }
+    if !status.success() && n_art == 0 {
+        let tail = std::fs::read_to_string(dir.join("campaign.log")).unwrap_or_default();
+        let tail: String = tail.lines().rev().take(8).collect::<Vec<_>>().into_iter().rev().collect::<Vec<_>>().join(" | ");
+        return Err(format!("cargo fuzz exited with {status} without an artifact: {tail}"));
+    }
+    // replay the corpus through the release binary (overflow-unchecked configuration + evidence numbers)
+    let out = dir.join("corpus-report.json");
+    let mut c = Command::new(bin_for("release"));
+    c.arg("fuzz-corpus").arg(prop.id).arg(t.name).arg(&corpus).arg(&out).stdin(Stdio::null()).stderr(Stdio::null());
+    set_rlimit(&mut c, RLIMIT_AS_BYTES);
+    let report = match c.status() {
+        Ok(st) if st.success() => std::fs::read_to_string(&out).ok().and_then(|s| serde_json::from_str::<WorkerReport>(&s).ok()),
+        Ok(st) if st.signal().is_some() => {
+            fails.push(Failure {
+                property: prop.id.to_string(),
+                subcheck: format!("fuzz.{}", t.name),
+                profile: "release".to_string(),
+                case: serde_json::Value::Null,
+                violation: Violation::new("abort:corpus-replay", format!("replaying the {} corpus in the release build died from signal {:?}", t.name, st.signal())),
+                shrunk: false,
+            });
+            None
+        }
+        _ => None,
+    };
+    let corpus_size = std::fs::read_dir(&corpus).map(|r| r.count()).unwrap_or(0);
+    let info = serde_json::json!({
+        "target": t.name,
+        "jobs": jobs,
+        "runs_per_job": t.runs_per_job,
+        "executions": t.runs_per_job * jobs as u64,
+        "seed_inputs": n_seeds,
+        "corpus_units_after": corpus_size,
+        "artifacts": n_art,
+        "wall_s": start.elapsed().as_secs_f64(),
+    });
+    Ok((info, fails, report))
+}
+
+/// `ebv fuzz-corpus <prop> <target> <dir> <out>`: run the target's oracle over every file of a corpus directory.
+pub fn fuzz_corpus(prop_id: &str, target: &str, dir: &Path, out: &Path) -> i32 {
+    super::install_panic_hook();
+    let mut stats = super::Stats::default();
+    let mut failures = Vec::new();
+    let name = format!("fuzz.{target}:corpus");
+    if let Ok(rd) = std::fs::read_dir(dir) {
+        let mut files: Vec<_> = rd.flatten().map(|e| e.path()).collect();
+        files.sort();
+        for f in files {
+            let Ok(bytes) = std::fs::read(&f) else { continue };
+            let mut obs = super::Obs::default();
+            let r = match super::no_panic("fuzz oracle", || crate::fuzzing::entry(target, &bytes, &mut obs)) {
+                Ok(r) => r,
+                Err(v) => Err(v),
+            };
+            stats.cases += 1;
+            stats.evaluations += 1;
+            for l in &obs.labels {
+                *stats.labels.entry((*l).to_string()).or_default() += 1;
+            }
+            if obs.nontrivial && obs.skipped.is_none() {
+                stats.nontrivial += 1;
+                stats.distinct.insert(super::case_hash(&bytes));
+                if stats.samples.len() < 2 {
+                    stats.samples.push(format!("{:02x?}", &bytes[..bytes.len().min(80)]));
+                }
+            }
+            if let Err(v) = r {
+                if !known::is_known(prop_id, &v) && failures.len() < 3 {
+                    failures.push(Failure {
+                        property: prop_id.to_string(),
+                        subcheck: format!("fuzz.{target}"),
+                        profile: super::profile_name().to_string(),
+                        case: serde_json::to_value(crate::fuzzing::FuzzBytes(bytes.clone())).unwrap_or_default(),
+                        violation: v,
+                        shrunk: false,
+                    });
+                }
+            }
+        }
+    }
+    stats.distinct_count = stats.distinct.len() as u64;
+    let mut report = WorkerReport {
+        profile: format!("{}(fuzz-corpus)", super::profile_name()),
+        ..Default::default()
+    };
+    report.distinct_hashes.insert(name.clone(), stats.distinct.iter().copied().collect());
+    report.per_sub.insert(name, stats);
+    report.failures = failures;
+    match std::fs::write(out, serde_json::to_string(&report).unwrap()) {
+        Ok(()) => 0,
+        Err(_) => 3,
     }
 }
